@@ -13,6 +13,10 @@ use image_webp::WebPDecoder;
 use serde_json::json;
 use std::io::Cursor;
 
+/// largest image (in pixels) on which the list-based specification twin and the stream model with
+/// the crate's entropy layer are run (300 in the quick tier, 2400 in the thorough tier)
+static TWIN_PIXELS: std::sync::atomic::AtomicU64 = std::sync::atomic::AtomicU64::new(300);
+
 fn decode_impl(stream: &[u8], w: u32, h: u32) -> Result<Vec<u8>, String> {
     match catch(|| {
         let mut buf = vec![0xA5u8; (w * h * 4) as usize];
@@ -42,7 +46,7 @@ fn one(drv: &mut Drv, rep: &mut Report, source: &str, stream: &[u8], with_spec: 
     // the proof-friendly twin of the specification (VP8LP.decode, the one the theorems are about)
     // must say what the executable specification says
     if let Some(s) = &spec {
-        if (w as u64) * (h as u64) <= 300 && stream.len() <= 2000 {
+        if (w as u64) * (h as u64) <= TWIN_PIXELS.load(std::sync::atomic::Ordering::Relaxed) && stream.len() <= 2000 * (TWIN_PIXELS.load(std::sync::atomic::Ordering::Relaxed) as usize / 300) {
             let twin = drv.ask(&format!("vp8lspecp {}", hex(stream)));
             rep.hit("spec_twin_compared");
             if twin != *s {
@@ -295,6 +299,7 @@ fn crafted() -> Vec<(String, Vec<u8>)> {
 }
 
 pub fn run(o: &Opts) -> Report {
+    TWIN_PIXELS.store(if o.thorough() { 2400 } else { 300 }, std::sync::atomic::Ordering::Relaxed);
     let mut rep = Report::new("C01");
     let mut drv = Drv::spawn(&o.drv);
     if let Some(case) = &o.replay {
